@@ -101,14 +101,18 @@ Theorem append_writes_at_end : forall (ch : Z -> Z -> Z -> Z) disk h ss d' h' r,
 Proof. exact append_writes_at_end_lemma. Qed.
 Print Assumptions append_writes_at_end.
 
-(* Every method of a closed handle raises and touches neither the file nor the handle. *)
+(* Every method of a closed handle, and every step of a lines iterator obtained before the close
+   ([ONext]), raises and touches neither the file nor the handle.  [rbuf h = []] is what close
+   establishes (next theorem): the read-ahead is given up, so such an iterator has nothing to
+   return. *)
 Theorem closed_handle_raises : forall (ch : Z -> Z -> Z -> Z) ops disk h,
-  i_closed h = true -> irun ch disk h ops = (disk, h, map (fun _ => RRaise) ops).
+  i_closed h = true -> rbuf h = [] -> irun ch disk h ops = (disk, h, map (fun _ => RRaise) ops).
 Proof. exact closed_run_raises. Qed.
 Print Assumptions closed_handle_raises.
 
 Theorem close_closes_handle : forall (ch : Z -> Z -> Z -> Z) disk h d' h' r,
-  i_closed h = false -> istep ch disk h OClose = (d', h', r) -> i_closed h' = true /\ r = RTrue.
+  Inv disk h -> i_closed h = false -> istep ch disk h OClose = (d', h', r) ->
+  i_closed h' = true /\ rbuf h' = [] /\ r = RTrue.
 Proof. exact close_closes. Qed.
 Print Assumptions close_closes_handle.
 
